@@ -99,6 +99,22 @@ def isotope_control(ctx, rep, clause):
     ob(rep, 'SIB-isotope', f.fq, 'without it only the sequence composition is labelled',
        b == {'sequence_composition'}, f'{sorted(b)}', f'labelled: {sorted(b)}: a label would reach atoms inside '
        f'modifications although not requested (or miss the residues)', f.loc(blk), clause)
+    # every contribution that comes from mod_comp(...) is accumulated in the modification composition, i.e. in the
+    # accumulator that is labelled only under use_isotope_on_mods -- never in the one that is always labelled
+    mod_acc = sorted(a - b)
+    k = 0
+    for n in walk_own(f.node):
+        if isinstance(n, ast.For) and 'mod_comp(' in norm_stmt(n.iter):
+            for st in n.body:
+                if isinstance(st, ast.Assign) and isinstance(st.targets[0], ast.Subscript):
+                    k += 1
+                    tgt = norm_stmt(st.targets[0].value)
+                    ob(rep, 'SIB-isotope', f.fq, f'`{norm_stmt(st)}` (atoms of a modification) goes to the modification '
+                       f'accumulator', [tgt] == mod_acc, f'{tgt}',
+                       f'atoms of a modification are added to `{tgt}`, which is isotope-labelled unconditionally: a '
+                       f'global label reaches atoms inside that modification although use_isotope_on_mods is off',
+                       f.loc(st), clause)
+    rep.floor('SIB-isotope', 'modification-composition accumulations in _sequence_comp', k, 9)
     encl = None
     for n in walk_own(f.node):
         if isinstance(n, ast.If) and blk in n.body:
@@ -203,3 +219,5 @@ def check(ctx, rep):
     isotope_control(ctx, rep, 'C12b')
     token_pairs(ctx, rep, 'C12c')
     routing(ctx, rep, 'C12d')
+    from .common import repeat_alias_rule
+    repeat_alias_rule(ctx, rep, 'C12a', ('peptacular.proforma.proforma_parser', 'peptacular.mass_calc', 'peptacular.chem.chem_calc'))
